@@ -18,6 +18,23 @@ func verifC03(mode, maxCols, maxBody, L int, decoSel int) {
 				return vfString(name, L, vfLINE)
 			}
 			return "ab"
+		case 3:
+			if nText == 1 {
+				s := ""
+				n := vfChoice(name+".n", L+1)
+				for i := 0; i < n; i++ {
+					switch vfChoice(vfName(name+".a", i), 3) {
+					case 0:
+						s += "x"
+					case 1:
+						s += "世"
+					case 2:
+						s += "\n"
+					}
+				}
+				return s
+			}
+			return "ab"
 		}
 		if nText <= 2 {
 			s := ""
@@ -83,7 +100,7 @@ func verifC03(mode, maxCols, maxBody, L int, decoSel int) {
 	var d decoration.Decoration
 	if decoSel < 0 {
 		nd := len(vfDecoNames)
-		if mode == 2 && vfTier() == 0 {
+		if (mode == 2 || mode == 3) && vfTier() == 0 {
 			nd = 3 // quick: heavy, ascii, boxless; thorough: all six
 		}
 		name := vfDecoNames[vfChoice("deco", nd)]
@@ -160,6 +177,15 @@ func VerifC03_multiline() {
 
 func VerifC03_unicode() {
 	verifC03(2, 2, 1, 0, -1)
+}
+
+// one cell of up to six atoms over {x, wide CJK, LF}: lines whose rune counts and widths order differently
+func VerifC03_widelines() {
+	L := 6
+	if vfTier() == 1 {
+		L = 7
+	}
+	verifC03(3, 1, 1, L, -1)
 }
 
 func VerifC03_custom() {
